@@ -98,6 +98,10 @@ def run_merge(db, case):
         return "merge_of_previously_merged_" + bad, got3
     if db.conn.total_changes != tc:
         return "database_changed", None
+    # "fresh distinct ids": no merged output of any of the three calls on this handle carries an id that another merged output got
+    mids = [g["id"] for got in (got1, got2, got3) for g in got if g["kids"]]
+    if len(set(mids)) != len(mids):
+        return "merged_ids_repeat_across_calls", sorted(mids)[:8]
     return None, got1
 
 
